@@ -361,7 +361,14 @@ func (f *CallForm) Transition(process *Process, re *RuntimeEnvironment) {
 			// Since the function that uses an explicit provider is called using explicit self,
 			// e.g. f(self, x1, x2) or f(w, x1, x2) where w has IsSelf true,
 			// then w has to be replaced by the new provider
-			functionCallBody.Substitute(functionCall.ExplicitProvider, f.parameters[0])
+			// The caller may refer to its own provider by a name of its choosing (its explicit
+			// provider name). That name means nothing in the callee: drop it, so that a parameter or
+			// a bound name of the callee which happens to be spelled the same cannot capture it
+			newProvider := f.parameters[0]
+			if newProvider.IsSelf && !newProvider.Initialized() {
+				newProvider.Ident = ""
+			}
+			functionCallBody.Substitute(functionCall.ExplicitProvider, newProvider)
 
 			for i := 1; i < len(f.parameters); i++ {
 				functionCallBody.Substitute(functionCall.Parameters[i-1], f.parameters[i])
